@@ -349,14 +349,14 @@ def native_replay(files, h, test_src, tier):
                 return text + "\n" + test_src + "\n"
             return text
         sc.install_overlay(files, tier=tier, transform=tr)
-        for prof in ([], ["--release"]):
-            cmd = ["cargo", "kani", "playback", "-Z", "concrete-playback"] + prof + ["--", tname, "--exact".replace("--exact", "")]
-            cmd = [c for c in cmd if c]
-            p = subprocess.run(cmd, cwd=sc.src, env=offline_env({"CARGO_TARGET_DIR": sc.tgt}), capture_output=True, text=True)
-            out = p.stdout + p.stderr
-            logs.append("$ %s\n%s" % (" ".join(cmd), out[-4000:]))
-            if re.search(r"test result: FAILED", out) or ("panicked at" in out and "FAILED" in out):
-                reproduced = True
+        # `cargo kani playback` (0.68) has no --release switch: the dev profile (debug assertions and
+        # overflow checks on) is the profile Kani models, and is what is replayed.
+        cmd = ["cargo", "kani", "playback", "-Z", "concrete-playback", "--lib", "--", tname]
+        p = subprocess.run(cmd, cwd=sc.src, env=offline_env({"CARGO_TARGET_DIR": sc.tgt}), capture_output=True, text=True)
+        out = p.stdout + p.stderr
+        logs.append("$ %s\n%s" % (" ".join(cmd), out[-4000:]))
+        if re.search(r"test result: FAILED", out) or (tname + " ... FAILED") in out:
+            reproduced = True
     return reproduced, "\n".join(logs)
 
 
